@@ -2,7 +2,8 @@
    the concrete table of the running engine).  That the three producers (FEN loader, text-move applier,
    generator) actually establish and keep key = from-scratch hash on whole games is, beyond the lemmas
    below, decided by the correspondence check against Spec.hash on every prefix of generated games. *)
-From Walleye Require Import Model.Successor Model.Fen Spec.Abs Proofs.Cells Proofs.HashProofs Proofs.KeyInvariant Proofs.ZobristConcrete Gen.ZobristTable.
+From Walleye Require Import Model.Successor Model.TextMove Model.Fen Spec.Abs Proofs.Cells Proofs.HashProofs Proofs.KeyInvariant Proofs.ZobristConcrete
+     Proofs.GenerateAbs Proofs.LegalMoves Proofs.MakeMoveSame Gen.ZobristTable.
 Open Scope N_scope.
 
 (* the helpers that do not touch the squares keep key = hash (abs board), for every table *)
@@ -31,6 +32,23 @@ Proof. exact hash_placement_set. Qed.
 Theorem C05_generator_keeps_invariant : forall zt s m x,
   gen_ok zt s -> In x (generate_moves zt s m) -> key_ok zt x.
 Proof. exact generate_moves_key_ok. Qed.
+
+(* the text-move applier keeps the invariant too, on every move the generator can produce (by C01: every legal move) *)
+Theorem C05_replay_keeps_invariant : forall zt s x txt y,
+  pos_ok1 s -> key_ok zt s -> In x (generate_moves zt s AllMoves) ->
+  best_move_text x = Ok txt -> make_move zt s txt = Ok y -> key_ok zt y.
+Proof. exact replay_key_ok. Qed.
+
+(* so the generator and the applier agree on the key of the position they both reach *)
+Theorem C05_generator_and_replay_agree : forall zt s x txt y,
+  pos_ok1 s -> gen_ok zt s -> In x (generate_moves zt s AllMoves) ->
+  best_move_text x = Ok txt -> make_move zt s txt = Ok y -> same_pos y x -> zobrist_key y = zobrist_key x.
+Proof.
+  intros zt s x txt y PO GO Hx Ht Hy SP.
+  pose proof (generate_moves_key_ok zt s AllMoves x GO Hx) as Kx.
+  pose proof (replay_key_ok zt s x txt y PO (proj1 GO) Hx Ht Hy) as Ky.
+  unfold key_ok in *. rewrite Kx, Ky. now rewrite (same_pos_abs y x SP).
+Qed.
 
 (* non-vacuity: the start position loaded by the model's FEN loader with the engine's table meets gen_ok,
    so all its 20 successors carry the from-scratch key *)
@@ -79,6 +97,8 @@ Print Assumptions C05_unset_en_passant_keeps_invariant.
 Print Assumptions C05_set_en_passant_keeps_invariant.
 Print Assumptions C05_hash_of_written_square.
 Print Assumptions C05_generator_keeps_invariant.
+Print Assumptions C05_replay_keeps_invariant.
+Print Assumptions C05_generator_and_replay_agree.
 Print Assumptions C05_concrete_piece_words.
 Print Assumptions C05_concrete_other_words.
 Print Assumptions C05_nonzero_word_changes_key.
